@@ -12,6 +12,7 @@ DIFF_TRUST = [
 REG = {
     "_rlimit": 50,
     "C01": {
+        "thorough_extra": ["replay"],
         "units": ["diff"],
         "scope": "DiffTool::diff + peek_* + Diff::has_differences + split_at_newline + Expectation::matches: "
                  "result has no differences  ==>  the output's lines are in the language e1{q1}..en{qn} (spec fn `accepts`)",
@@ -19,6 +20,7 @@ REG = {
         "not_decided": [],
     },
     "C02": {
+        "thorough_extra": ["replay"],
         "units": ["diff"],
         "scope": "DiffTool::diff: terminates (decreases), no panic (index/overflow/unwrap obligations), result satisfies wf_prefix: "
                  "every output line exactly once in order with content equal to the split line, matched lines really match, "
@@ -28,6 +30,7 @@ REG = {
         "not_decided": [],
     },
     "C03": {
+        "thorough_extra": ["replay"],
         "units": ["diff"],
         "scope": "DiffTool::diff: deterministic(E, L) && accepts(E, L) ==> no differences (with C01: reports a match exactly when described)",
         "assumptions": DIFF_TRUST + ["determinism is quantified over all states (i, used, j), not only reachable ones (slightly stronger hypothesis, DESIGN §5)"],
@@ -36,6 +39,7 @@ REG = {
 }
 
 REG["C16"] = {
+    "thorough_extra": ["replay"],
     "units": ["config"],
     "scope": "TestCaseConfig::{with_defaults_from, with_overrides_from}, DocumentConfig::{with_defaults_from, with_overrides_from}: "
              "every key and every individual environment variable comes from the higher layer when it sets it (tc_layer/env_layer/doc_layer); "
@@ -57,6 +61,7 @@ REG["C16"] = {
 }
 
 REG["C05"] = {
+    "thorough_extra": ["replay"],
     "units": ["validate"],
     "scope": "TestCase::validate: wrong exit code => Err(InvalidExitCode{actual, expected}) regardless of output; Ok => exit status is Code(expected) "
              "(0 when none written) [or Detached, which the reporting sites filter out] AND the configured stream (stderr iff output_stream==stderr, else stdout) "
@@ -95,6 +100,7 @@ ESC_TRUST = [
     "`while let Some(c) = chars.next()` loops (unescape_tabs, resolve_escape_sequences_to_bytes): partial correctness only, termination unproved (vstd iterator measure)",
 ]
 REG["C04"] = {
+    "thorough_extra": ["replay"],
     "units": ["escaping"],
     "scope": "equal: matches iff line == expr + LF; no-eol: iff line == expr; escaped: matches iff stored bytes == line without trailing LFs, and the stored bytes are "
              "decode(expr) = resolve(unesc(expr)) (both decoders verified against recursive specs); regex: the pattern handed to the regex crate is ^(?:cleaned)$ and the candidate is "
@@ -108,6 +114,7 @@ REG["C04"] = {
 }
 
 REG["C11"] = {
+    "thorough_extra": ["replay"],
     "units": ["escaping"],
     "scope": "UNICODE mode: escaped_expectation_unicode(line) contains no C* (control/format/unassigned/private/surrogate) code point and is either the line itself or "
              "`t (escaped)` with decode(t) == content (escaped_printable_unicode proved equal to enc_u; round-trip lemma per char). "
